@@ -108,6 +108,98 @@ def _ordering_step(ctx, fi: FuncInfo) -> None:
         r.ok("C09.R1", fi.qual, f"interpreted on {n} document orders of five related rules (chain c2 → c1 → a, b; condition-only references), an unrelated rule and a filter: every rule once, each behind all rules it refers to", fi.loc)
 
 
+def correlation_resolution_table(ctx) -> dict[str, list[str]]:
+    """SigmaCorrelationRule.resolve_rule_references interpreted (sa.tabulate, Proxy) on stand-in references and rules.
+    → {obligation: [deviations]}; cached per run."""
+    if getattr(ctx, "_c09_corr", None) is not None:
+        return ctx._c09_corr
+    import types as _types
+    from ..tabulate import Proxy, call_method, Raised
+    prog = ctx.prog
+    CR = "sigma.correlations.SigmaCorrelationRule"
+
+    class SigmaRuleNotFoundError(Exception):
+        pass
+
+    class _Target:
+        def __init__(self, n): self.n, self.back, self.disabled = n, [], 0
+        def add_backreference(self, x): self.back.append(x)
+        def disable_output_by_reference(self): self.disabled += 1
+        def disable_output(self): self.disabled += 100
+        def enable_output(self): self.disabled -= 1000
+        def __repr__(self): return f"rule {self.n}"
+
+    class SigmaRuleReference:
+        def __init__(self, reference, rule=None): self.reference, self.rule, self.resolved = reference, rule, 0
+        def resolve(self, coll):
+            self.resolved += 1
+            self.rule = coll[self.reference]
+
+    class SigmaExtendedCorrelationCondition:
+        def get_referenced_rules(self): return ["a", "b"]
+
+    class _Coll(dict):
+        def __getitem__(self, k):
+            if k not in self:
+                raise SigmaRuleNotFoundError(k)
+            return dict.__getitem__(self, k)
+
+    env = {"SigmaRuleReference": SigmaRuleReference, "SigmaExtendedCorrelationCondition": SigmaExtendedCorrelationCondition,
+           "sigma_exceptions": _types.SimpleNamespace(SigmaRuleNotFoundError=SigmaRuleNotFoundError), "SigmaRuleNotFoundError": SigmaRuleNotFoundError}
+    IK = {"behaviours": (SigmaRuleNotFoundError,), "max_steps": 6000}
+    out: dict[str, list[str]] = {k: [] for k in ("every reference is resolved", "every referenced rule gets the back reference", "a missing rule is an error",
+                                                 "output of the referenced rules is disabled exactly if the rule does not generate", "aliases are resolved", "the reference list is taken from the rules list or the extended condition")}
+    for generate, own_output in ((False, True), (True, True), (True, False), (False, False)):
+        for scenario in ("rules list", "extended condition", "no references", "missing rule", "rules list and extended condition"):
+            coll = _Coll(a=_Target("a"), b=_Target("b"))
+            stale = _Target("stale a")
+            alias_calls: list = []
+            attrs = {"generate": generate, "aliases": _types.SimpleNamespace(resolve_rule_references=lambda c: alias_calls.append(c)), "referenced_rules": [], "source": None,
+                     "rules": None, "condition": object(), "_output": own_output, "_output_disabled_by_reference": False, "_backreferences": []}
+            if scenario in ("rules list", "missing rule"):
+                attrs["rules"] = [SigmaRuleReference("a", stale), SigmaRuleReference("b" if scenario == "rules list" else "nowhere")]
+            elif scenario == "extended condition":
+                attrs["condition"] = SigmaExtendedCorrelationCondition()
+            elif scenario == "rules list and extended condition":  # the list names the rules in another order than the condition text
+                attrs["rules"] = [SigmaRuleReference("b"), SigmaRuleReference("a", stale)]
+                attrs["condition"] = SigmaExtendedCorrelationCondition()
+            me = Proxy(prog, CR, env, attrs, interp_kwargs=IK)
+            case = f"{scenario}, generate={generate}, own output {'on' if own_output else 'off'}"
+            try:
+                call_method(prog, CR, "resolve_rule_references", me, env, coll, interp_kwargs=IK)
+                raised = None
+            except Raised as ex:
+                raised = ex
+            if scenario == "missing rule":
+                if raised is None or "SigmaRuleNotFoundError" not in str(raised):
+                    out["a missing rule is an error"].append(f"{case}: {'no error' if raised is None else raised}")
+                continue
+            if raised is not None:
+                out["every reference is resolved"].append(f"{case}: raises {raised}")
+                continue
+            refs = list(me.referenced_rules)
+            want_names = [] if scenario == "no references" else ["b", "a"] if scenario == "rules list and extended condition" else ["a", "b"]
+            if [getattr(x, "reference", None) for x in refs] != want_names:
+                out["the reference list is taken from the rules list or the extended condition"].append(f"{case}: referenced_rules = {[getattr(x, 'reference', x) for x in refs]}, expected {want_names}")
+                continue
+            for x in refs:
+                if x.resolved != 1 or x.rule is not coll[x.reference]:
+                    out["every reference is resolved"].append(f"{case}: reference {x.reference!r} resolved {x.resolved} time(s), points to {x.rule!r}")
+            for t in (coll["a"], coll["b"]):
+                want_back = 0 if scenario == "no references" else 1
+                if len(t.back) != want_back or any(b is not me for b in t.back):
+                    out["every referenced rule gets the back reference"].append(f"{case}: {t!r} has {len(t.back)} back reference(s)")
+                want_dis = 0 if (generate or scenario == "no references") else 1
+                if t.disabled != want_dis:
+                    out["output of the referenced rules is disabled exactly if the rule does not generate"].append(f"{case}: {t!r}: output disabled by reference {t.disabled} time(s), expected {want_dis}")
+            if stale.back or stale.disabled:
+                out["every reference is resolved"].append(f"{case}: the stale object of an already resolved reference was used")
+            if len(alias_calls) != 1 or alias_calls[0] is not coll:
+                out["aliases are resolved"].append(f"{case}: aliases.resolve_rule_references called {len(alias_calls)} time(s)")
+    ctx._c09_corr = out
+    return out
+
+
 def r1_ordering(ctx) -> None:
     r, prog = ctx.r, ctx.prog
     r.rule("C09.R1", "between reference resolution and conversion the rule list is replaced by a topological order of the reference relation (referenced rules first, transitively); comparison sorts on the non-transitive __lt__ and rank keys blind to chains are reported")
@@ -183,29 +275,15 @@ def r2_resolution_before_use(ctx) -> None:
                 r.ok("C09.R2", q, short(n, 80), f"{f.module.relpath}:{n.lineno}")
     # resolution loop of the correlation rule: unconditional per reference
     rr = prog.func("sigma.correlations.SigmaCorrelationRule.resolve_rule_references")
-    loops = [n for n in walk_no_nested(rr.node) if isinstance(n, ast.For) and unparse(n.iter) == "self.referenced_rules"]
-    if not loops:
-        raise AnalysisError(f"{rr.qual}: loop over self.referenced_rules not found")
-    lp = loops[0]
-    for want in ("rule_ref.resolve", "rule.add_backreference"):
-        calls = [c for c in ast.walk(lp) if isinstance(c, ast.Call) and call_name(c) == want]
-        loc = f"{rr.module.relpath}:{lp.lineno}"
-        if len(calls) != 1:
-            r.violation("C09.R2", rr.qual, f"{want}(...)", f"{len(calls)} calls per reference (exactly one expected)", loc)
+    for what, problems in correlation_resolution_table(ctx).items():
+        if what not in ("every reference is resolved", "every referenced rule gets the back reference", "a missing rule is an error"):
             continue
-        gs_ = [g for g in guards_at(prog, rr, calls[0]) if not isinstance(g[0], (ast.For,))]
-        cfg2 = cfg_of(rr)
-        # must execute on every iteration: every path from the loop's iterate-branch back to the header passes the call
-        call_nodes = cfg2.node_of_expr(calls[0], prog.parent)
-        header = [n.id for n in cfg2.nodes if n.kind == 'for' and n.ast is lp]
-        it_branch = [n.id for n in cfg2.nodes if n.kind == "branch" and n.ast is lp and n.polarity]
-        uncond = all(cfg2.must_pass(h, call_nodes, start=b) for h in header for b in it_branch)
-        if uncond and not [g for g in gs_ if not isinstance(g[0], ast.For)]:
-            r.ok("C09.R2", rr.qual, f"{want}(...) runs for every reference, unconditionally", f"{rr.module.relpath}:{calls[0].lineno}")
+        if not problems:
+            r.ok("C09.R2", rr.qual, f"{what}, unconditionally (interpreted: explicit rules list incl. an already resolved reference, references from an extended condition, no references)", rr.loc)
         else:
-            r.violation("C09.R2", rr.qual, short(calls[0], 80),
-                        "a reference can be skipped (already-resolved shortcut / guard): a missing rule is then not reported at load time and a re-loaded rule keeps pointing at a stale object", f"{rr.module.relpath}:{calls[0].lineno}")
-    r.floor("C09.R2", 7)
+            r.violation("C09.R2", rr.qual, f"{what}: {problems[0]}",
+                        "a reference can be skipped (already-resolved shortcut / guard): a missing rule is then not reported at load time and a re-loaded rule keeps pointing at a stale object", rr.loc)
+    r.floor("C09.R2", 6)
 
 
 def r5_every_reference_holder(ctx) -> None:
@@ -388,8 +466,11 @@ def r4_output_switch(ctx) -> None:
             if isinstance(x, ast.Call) and call_name(x).endswith(".disable_output_by_reference"):
                 loc = f"{f.module.relpath}:{x.lineno}"
                 gs = atomic_guards(guards_at(prog, f, x))
-                if q == "sigma.correlations.SigmaCorrelationRule.resolve_rule_references" and ("self.generate", False) in gs:
-                    r.ok("C09.R4", q, "rule.disable_output_by_reference() under `not self.generate`", loc)
+                tbl = correlation_resolution_table(ctx)["output of the referenced rules is disabled exactly if the rule does not generate"]
+                if q == "sigma.correlations.SigmaCorrelationRule.resolve_rule_references" and not tbl:
+                    r.ok("C09.R4", q, "rule.disable_output_by_reference() exactly under `not self.generate` (interpreted: generate x own output switch x reference source)", loc)
+                elif q == "sigma.correlations.SigmaCorrelationRule.resolve_rule_references":
+                    r.violation("C09.R4", q, short(x, 80), f"disable_output_by_reference() not exactly under `not self.generate`: {tbl[0]}", loc)
                 else:
                     r.violation("C09.R4", q, short(x, 80), f"disable_output_by_reference() called outside reference resolution or not under `not self.generate` ({gs})", loc)
             if isinstance(x, ast.Call) and call_name(x).endswith(".disable_output"):
